@@ -412,7 +412,7 @@ func (p *Path) runFrame(fr *frame) Value {
 	block := fr.fn.Blocks[0]
 	for {
 		fr.visits[block]++
-		if fr.visits[block] > p.unwind+1 {
+		if fr.visits[block] > p.unwind+1 && !p.inInit {
 			if p.unwindAssume {
 				panic(pathAbort{kind: "assume", msg: "loop bound (stated as an assumption of the claim)"})
 			}
@@ -580,6 +580,21 @@ func (p *Path) eval(fr *frame, ins ssa.Value) Value {
 		return copyVal(p.get(fr, in.X).(Struct)[in.Field])
 	case *ssa.IndexAddr:
 		x := p.get(fr, in.X)
+		if bo, ok := x.(BytesOf); ok {
+			// read-only view of one byte of a string-backed []byte
+			i := p.get(fr, in.Index).(*Term)
+			inb := mkAnd(mkLe(mkInt(0), i), mkLt(i, mkLen(bo.s)))
+			if !p.branch(inb, "byte-index-in-range") {
+				p.goPanic("index out of range")
+			}
+			c := new(Value)
+			if bo.s.IsConst() && i.IsConst() {
+				*c = mkInt(int64(bo.s.S[i.Int64()]))
+			} else {
+				*c = mkApp("str.to_code", SInt, mkSubstr(bo.s, i, mkInt(1)))
+			}
+			return Ptr{c}
+		}
 		idx := p.concreteInt(p.get(fr, in.Index), "index")
 		switch xx := x.(type) {
 		case Slice:
